@@ -1,7 +1,7 @@
 (* Properties_C09.v — C09: integer roots, remainders and perfect-power tests are exact.
    Statements only. *)
 From Coq Require Import ZArith List Bool.
-From Mpir Require Import Word Limbs DivDefs SqrtDefs SqrtProofs RootDefs RootProofs TablesDefs TablesProofs.
+From Mpir Require Import Word Limbs DivDefs SqrtDefs SqrtProofs SqrtTopProofs RootDefs RootProofs TablesDefs TablesProofs.
 From MpirGen Require Import Gen_Consts.
 Import ListNotations.
 Local Open Scope Z_scope.
@@ -76,6 +76,23 @@ Theorem C09_dc_sqrtrem_as_coded : forall n N fuel, 1 <= n -> (Z.to_nat n <= fuel
   /\ S < Bk n /\ Bk n <= 2 * S /\ 0 <= N - S * S <= 2 * S /\ 0 <= (N - S * S) / Bk n <= 1.
 Proof. exact dc_sqrtrem_correct. Qed.
 Print Assumptions C09_dc_sqrtrem_as_coded.
+
+
+(* the top level of mpn_sqrtrem as coded - one limb, odd limb counts and odd shifts through the temporary, un-normalising the root
+   and recomputing the remainder, both un-shift paths, the in-place even case, MPN_NORMALIZE of the remainder - for EVERY operand
+   with a non-zero top limb: root, remainder, and the returned remainder size *)
+Theorem C09_mpn_sqrtrem_as_coded : forall nn N, 1 <= nn -> Bk (nn - 1) <= N < Bk nn ->
+  let S := Z.sqrt N in let R := N - S * S in
+  SqrtDefs.mpn_sqrtrem nn N = Some (S, R, limb_count R) /\ 0 <= S < Bk ((nn + 1) / 2) /\ 0 <= R <= 2 * S.
+Proof. exact mpn_sqrtrem_correct. Qed.
+Print Assumptions C09_mpn_sqrtrem_as_coded.
+
+Theorem C09_mpn_sqrtrem_limbs_as_coded : forall np, wf np -> np <> [] -> last np 0 <> 0 ->
+  exists sl rl, mpn_sqrtrem_limbs np = Some (sl, rl) /\ wf sl /\ wf rl
+    /\ eval sl = Z.sqrt (eval np) /\ eval rl = eval np - Z.sqrt (eval np) * Z.sqrt (eval np)
+    /\ len sl = (len np + 1) / 2 /\ len rl = limb_count (eval np - Z.sqrt (eval np) * Z.sqrt (eval np)) /\ normalized rl.
+Proof. exact mpn_sqrtrem_limbs_correct. Qed.
+Print Assumptions C09_mpn_sqrtrem_limbs_as_coded.
 
 Example C09_nonvacuous :
   mpn_sqrtrem (2 ^ 128 - 1) = (2 ^ 64 - 1, 2 ^ 65 - 2) /\ mpz_root (-27) 3 = ROk (-3, true)
